@@ -3,6 +3,7 @@ package hx
 import (
 	"math"
 	"math/rand"
+	"strings"
 	"time"
 )
 
@@ -12,16 +13,21 @@ type Gen struct {
 	Base int64 // harness start time (ms); absolute expiries are whole hours away from it
 	Keys []string
 	Prof Profile
+	// pools (replaced per history by the binary / glob profiles)
+	elemP, fieldP, memberP, patP, pat2P []string
 }
 
 // Profile selects what a generator draws from.
 type Profile struct {
-	Name     string
-	Families map[string]int // family -> weight: key str list set hash zset
-	MaxSteps int
-	MinSteps int
-	Blocks   bool // caller-managed transactions
-	Expiry   bool // expiry-related operations and options
+	Name       string
+	Families   map[string]int // family -> weight: key str list set hash zset
+	MaxSteps   int
+	MinSteps   int
+	Blocks     bool    // caller-managed transactions
+	Expiry     bool    // expiry-related operations and options
+	Scan       bool    // cursor iterations as dynamic steps
+	Binary     bool    // hostile byte strings in every role
+	Glob       bool    // names and patterns from the glob grammar
 	BlockProb  float64 // probability that a step is a caller-managed transaction (default 0.15)
 	ExpireProb float64 // probability of following a step by an ExpireAt on one of the keys
 }
@@ -30,12 +36,109 @@ const hour = int64(3600000)
 
 func NewGen(seed int64, prof Profile) *Gen {
 	return &Gen{R: rand.New(rand.NewSource(seed)), Base: time.Now().UnixMilli(), Prof: prof,
-		Keys: []string{"k1", "k2", "k3"}}
+		Keys: []string{"k1", "k2", "k3"}, elemP: elemPool, fieldP: fieldPool, memberP: memberPool,
+		patP: patPool, pat2P: pat2Pool}
 }
 
-func (g *Gen) pick(n int) int { return g.R.Intn(n) }
+// hostile byte strings for the binary-safety profile
+var hostileBytes = []byte{0x00, 0x0a, 0x0d, 0x20, 0x22, 0x27, '*', '?', '[', ']', '\\', '5', 'a', 0x7f, 0x80, 0xc3, 0xe2, 0xf0, 0xff}
+
+func (g *Gen) hostile() string {
+	switch g.pick(10) {
+	case 0:
+		return string([]byte{byte(g.pick(256))})
+	case 1, 2, 3:
+		return string([]byte{hostileBytes[g.pick(len(hostileBytes))], hostileBytes[g.pick(len(hostileBytes))]})
+	case 4:
+		return ""
+	case 5:
+		n := 1 + g.pick(40)
+		b := make([]byte, n)
+		for i := range b {
+			b[i] = byte(g.pick(256))
+		}
+		return string(b)
+	case 6:
+		// a long value (kilobytes)
+		n := 1000 + g.pick(60000)
+		b := make([]byte, n)
+		for i := range b {
+			b[i] = byte(g.pick(256))
+		}
+		return string(b)
+	case 7:
+		return []string{"123", "-5", "1.5", "true", "nil", "héllo", "日本", "a\x00b", "\r\n", "k1"}[g.pick(10)]
+	default:
+		n := 1 + g.pick(4)
+		b := make([]byte, n)
+		for i := range b {
+			b[i] = hostileBytes[g.pick(len(hostileBytes))]
+		}
+		return string(b)
+	}
+}
+
+var globAlphabet = []string{"a", "b", "*", "?", "[", "]", "^", "!", "-", "\\", "c"}
+
+func (g *Gen) globName() string {
+	n := g.pick(5)
+	var b strings.Builder
+	for i := 0; i < n; i++ {
+		// names: mostly letters, sometimes metacharacters
+		if g.chance(0.7) {
+			b.WriteString([]string{"a", "b", "c"}[g.pick(3)])
+		} else {
+			b.WriteString(globAlphabet[g.pick(len(globAlphabet))])
+		}
+	}
+	return b.String()
+}
+
+func (g *Gen) globPattern() string {
+	n := g.pick(7)
+	var b strings.Builder
+	for i := 0; i < n; i++ {
+		switch g.pick(10) {
+		case 0, 1:
+			b.WriteString("*")
+		case 2:
+			b.WriteString("?")
+		case 3:
+			b.WriteString([]string{"[ab]", "[a-c]", "[^a]", "[!a]", "[", "[]]", "[^]a]", "[a-]", "[b-a]", "[]"}[g.pick(10)])
+		default:
+			b.WriteString(globAlphabet[g.pick(len(globAlphabet))])
+		}
+	}
+	return b.String()
+}
+
+// prepare draws the per-history universes of the binary and glob profiles.
+func (g *Gen) prepare() {
+	if g.Prof.Binary {
+		g.Keys = []string{g.hostile(), g.hostile(), g.hostile()}
+		g.elemP = []string{g.hostile(), g.hostile(), g.hostile(), g.hostile(), "", "a\x00", "\xff"}
+		g.fieldP = []string{g.hostile(), g.hostile(), g.hostile(), ""}
+		g.memberP = []string{g.hostile(), g.hostile(), g.hostile(), g.hostile()}
+	}
+	if g.Prof.Glob {
+		g.Keys = []string{g.globName(), g.globName(), g.globName(), g.globName(), g.globName()}
+		g.elemP = []string{g.globName(), g.globName(), g.globName(), g.globName(), g.globName(), g.globName(), g.globName()}
+		g.fieldP = []string{g.globName(), g.globName(), g.globName(), g.globName()}
+		g.memberP = []string{g.globName(), g.globName(), g.globName(), g.globName()}
+		g.patP = nil
+		g.pat2P = nil
+		for i := 0; i < 12; i++ {
+			g.patP = append(g.patP, g.globPattern())
+			g.pat2P = append(g.pat2P, g.globPattern())
+		}
+		g.patP = append(g.patP, "*", g.Keys[0])
+		g.pat2P = append(g.pat2P, "*", g.elemP[0])
+	}
+}
+
+func (g *Gen) pick(n int) int        { return g.R.Intn(n) }
 func (g *Gen) chance(p float64) bool { return g.R.Float64() < p }
-func (g *Gen) key() string { return g.Keys[g.pick(len(g.Keys))] }
+func (g *Gen) key() string           { return g.Keys[g.pick(len(g.Keys))] }
 func (g *Gen) keys(max int) []string {
 	n := g.pick(max + 1)
 	ks := make([]string, n)
@@ -184,7 +287,7 @@ func (g *Gen) strOp() *Op {
 
 var patPool = []string{"*", "k*", "k?", "k[12]", "k[^1]", "k[!1]", "?2", "k1", "", "[", "k[1-2]", "*1*", "\\k1", "k[]1]"}
 
-func (g *Gen) pattern() string { return patPool[g.pick(len(patPool))] }
+func (g *Gen) pattern() string { return g.patP[g.pick(len(g.patP))] }
 
 func (g *Gen) keyOp() *Op {
 	k := g.key()
@@ -275,9 +378,9 @@ func (g *Gen) famOp(fam string) *Op {
 var elemPool = []string{"a", "b", "c", "", "a\x00", "10", "\xff"}
 
 func (g *Gen) elem() Value {
-	e := elemPool[g.pick(3)]
+	e := g.elemP[g.pick(3)]
 	if g.chance(0.12) {
-		e = elemPool[g.pick(len(elemPool))]
+		e = g.elemP[g.pick(len(g.elemP))]
 	}
 	switch g.pick(12) {
 	case 0:
@@ -393,15 +496,15 @@ func (g *Gen) setOp() *Op {
 
 var pat2Pool = []string{"*", "a*", "?", "[ab]", "[^a]", "b", "", "*0"}
 
-func (g *Gen) pattern2() string { return pat2Pool[g.pick(len(pat2Pool))] }
+func (g *Gen) pattern2() string { return g.pat2P[g.pick(len(g.pat2P))] }
 
 var fieldPool = []string{"f1", "f2", "f3", ""}
 
 func (g *Gen) field() string {
 	if g.chance(0.1) {
-		return fieldPool[3]
+		return g.fieldP[3]
 	}
-	return fieldPool[g.pick(3)]
+	return g.fieldP[g.pick(3)]
 }
 func (g *Gen) fields(max int) []string {
 	n := g.pick(max + 1)
@@ -448,6 +551,9 @@ func (g *Gen) hashOp() *Op {
 	case 12:
 		return HLen(k)
 	case 13:
+		if g.Prof.Glob {
+			return HScan(k, g.pick(4), g.pattern2(), g.pick(4)-1)
+		}
 		return HScan(k, g.pick(4), []string{"*", "f*", "f[12]", "?1", ""}[g.pick(5)], g.pick(4)-1)
 	case 14, 15, 16:
 		return HSet(k, g.field(), g.value())
@@ -478,7 +584,7 @@ func (g *Gen) member() Value {
 	if g.chance(0.08) {
 		return g.elem()
 	}
-	return VStr(memberPool[g.pick(4)])
+	return VStr(g.memberP[g.pick(4)])
 }
 func (g *Gen) members(max int) []Value {
 	n := g.pick(max + 1)
@@ -507,7 +613,7 @@ func (g *Gen) zsetOp() *Op {
 		seen := map[string]bool{}
 		var items []ZV
 		for i := 0; i < n; i++ {
-			m := memberPool[g.pick(4)]
+			m := g.memberP[g.pick(4)]
 			if seen[m] {
 				continue
 			}
@@ -540,8 +646,15 @@ func (g *Gen) zsetOp() *Op {
 	case 26, 27, 28:
 		return ZRangeScore(k, g.score(), g.score(), g.chance(0.5), g.pick(5)-1, g.pick(5)-1)
 	default:
-		return ZScan(k, g.pick(4), pat2Pool[g.pick(len(pat2Pool))], g.pick(4)-1)
+		return ZScan(k, g.pick(4), g.pattern2(), g.pick(4)-1)
 	}
+}
+
+func (g *Gen) scanPat() string {
+	if g.chance(0.6) {
+		return "*"
+	}
+	return g.pattern2()
 }
 
 // txOK reports whether the operation exists at Tx level.
@@ -549,6 +662,7 @@ func txOK(op *Op) bool { return op.RunDB == nil && !op.MultiMap }
 
 func (g *Gen) History(id int) *History {
 	h := &History{ID: id, Tag: g.Prof.Name}
+	g.prepare()
 	n := g.Prof.MinSteps + g.pick(g.Prof.MaxSteps-g.Prof.MinSteps+1)
 	for i := 0; i < n; i++ {
 		bp := g.Prof.BlockProb
@@ -557,6 +671,20 @@ func (g *Gen) History(id int) *History {
 		}
 		if g.Prof.ExpireProb > 0 && g.chance(g.Prof.ExpireProb) {
 			h.Steps = append(h.Steps, &Step{Ops: []*Op{KExpireAt(g.key(), g.at())}})
+		}
+		if g.Prof.Scan && g.chance(0.12) {
+			count := []int{0, 1, 2, 3, 5, -1}[g.pick(6)]
+			switch g.pick(4) {
+			case 0:
+				h.Steps = append(h.Steps, KeyIteration(g.pattern(), g.pick(6), count))
+			case 1:
+				h.Steps = append(h.Steps, CollIteration('E', g.key(), g.scanPat(), count))
+			case 2:
+				h.Steps = append(h.Steps, CollIteration('H', g.key(), g.scanPat(), count))
+			default:
+				h.Steps = append(h.Steps, CollIteration('Z', g.key(), g.scanPat(), count))
+			}
+			continue
 		}
 		if g.Prof.Blocks && g.chance(bp) {
 			st := &Step{Block: true, StopOnErr: g.chance(0.6)}
@@ -616,16 +744,19 @@ func (h *History) Select(keep [][]int) *History {
 
 // Profiles are the named generator configurations.
 var Profiles = map[string]Profile{
-	"str": {Name: "str", Families: map[string]int{"str": 8, "key": 2}, MinSteps: 5, MaxSteps: 60, Blocks: true, Expiry: true},
-	"key": {Name: "key", Families: map[string]int{"str": 3, "key": 7}, MinSteps: 5, MaxSteps: 60, Blocks: true, Expiry: true},
-	"list": {Name: "list", Families: map[string]int{"list": 10, "key": 1}, MinSteps: 5, MaxSteps: 60, Blocks: true},
-	"set":  {Name: "set", Families: map[string]int{"set": 10, "key": 1}, MinSteps: 5, MaxSteps: 60, Blocks: true},
-	"hash": {Name: "hash", Families: map[string]int{"hash": 10, "key": 1}, MinSteps: 5, MaxSteps: 60, Blocks: true},
-	"zset": {Name: "zset", Families: map[string]int{"zset": 10, "key": 1}, MinSteps: 5, MaxSteps: 60, Blocks: true},
+	"str":    {Name: "str", Families: map[string]int{"str": 8, "key": 2}, MinSteps: 5, MaxSteps: 60, Blocks: true, Expiry: true},
+	"key":    {Name: "key", Families: map[string]int{"str": 3, "key": 7}, MinSteps: 5, MaxSteps: 60, Blocks: true, Expiry: true},
+	"list":   {Name: "list", Families: map[string]int{"list": 10, "key": 1}, MinSteps: 5, MaxSteps: 60, Blocks: true},
+	"set":    {Name: "set", Families: map[string]int{"set": 10, "key": 1}, MinSteps: 5, MaxSteps: 60, Blocks: true},
+	"hash":   {Name: "hash", Families: map[string]int{"hash": 10, "key": 1}, MinSteps: 5, MaxSteps: 60, Blocks: true},
+	"zset":   {Name: "zset", Families: map[string]int{"zset": 10, "key": 1}, MinSteps: 5, MaxSteps: 60, Blocks: true},
 	"expiry": {Name: "expiry", Families: map[string]int{"str": 2, "list": 2, "set": 2, "hash": 2, "zset": 2, "key": 4}, MinSteps: 5, MaxSteps: 80, Blocks: true, Expiry: true, ExpireProb: 0.25},
 	"txmix":  {Name: "txmix", Families: map[string]int{"str": 2, "list": 3, "set": 2, "hash": 2, "zset": 2, "key": 2}, MinSteps: 3, MaxSteps: 40, Blocks: true, Expiry: true, BlockProb: 0.6},
 	"refuse": {Name: "refuse", Families: map[string]int{"str": 2, "list": 2, "set": 2, "hash": 2, "zset": 2, "key": 1}, MinSteps: 5, MaxSteps: 60, Blocks: true, Expiry: false, BlockProb: 0.3},
-	"mixed": {Name: "mixed", Families: map[string]int{"str": 2, "list": 2, "set": 2, "hash": 2, "zset": 2, "key": 3}, MinSteps: 5, MaxSteps: 80, Blocks: true, Expiry: true},
+	"scan":   {Name: "scan", Families: map[string]int{"str": 1, "list": 1, "set": 4, "hash": 4, "zset": 4, "key": 3}, MinSteps: 10, MaxSteps: 70, Blocks: true, Expiry: true, Scan: true},
+	"binary": {Name: "binary", Families: map[string]int{"str": 3, "list": 2, "set": 2, "hash": 3, "zset": 2, "key": 3}, MinSteps: 5, MaxSteps: 50, Blocks: true, Expiry: false, Binary: true, Scan: true},
+	"glob":   {Name: "glob", Families: map[string]int{"str": 3, "set": 2, "hash": 2, "zset": 2, "key": 6}, MinSteps: 10, MaxSteps: 60, Blocks: false, Expiry: false, Glob: true, Scan: true},
+	"mixed":  {Name: "mixed", Families: map[string]int{"str": 2, "list": 2, "set": 2, "hash": 2, "zset": 2, "key": 3}, MinSteps: 5, MaxSteps: 80, Blocks: true, Expiry: true},
 }
 
 // Regenerate reproduces history number hid of a seeded run.
